@@ -47,6 +47,7 @@ var stringPool = []string{
 	`"123"`, `"true"`, `"null"`, `"RED"`,
 }
 var bigInts = []string{"99999999999999999999", "-99999999999999999999", "9223372036854775808", "1099511627776"}
+
 // MaxFiniteDoubleInt is the largest integer literal that still converts to a finite double
 // (2^1024 - 2^970 - 1: everything below the half-way point between MaxFloat64 and 2^1024);
 // BeyondDoubleInts are integer literals that strconv.ParseFloat turns into ±Inf.
